@@ -369,6 +369,10 @@ ResolveConf(sp) ==
   IF m = {} THEN <<"none">>
   ELSE IF Cardinality(m) > 1 THEN <<"ambiguous">>
   ELSE <<"one", CHOOSE c \in reg : c.sel \in m>>
+\* a method (kind "meth": its selector is the selector of its class plus its own name) is only addressable through
+\* its class: the bare method name is rejected even when it is unambiguous (943-947)
+IsMethod(c) == c.kind = "meth"
+BareMethod(sp) == ResolveConf(sp)[1] = "one" /\ IsMethod(ResolveConf(sp)[2]) /\ Len(sp) = 1
 
 (* values reachable inside a value: _iterate_flattened_values (2695-2709) *)
 RECURSIVE Flatten(_)
@@ -483,6 +487,7 @@ CallBody(c, call) ==
 Call(c, call) ==
   /\ "Call" \in Enabled
   /\ c \in reg /\ call \in CallSpaceOf[c]
+  /\ ~IsMethod(c)               \* methods are reached through instances of their class; only their bindings are modelled
   /\ CallBody(c, call)
 
 \* clear_config (1004-1029)
@@ -654,6 +659,8 @@ BindSp(api, scope, sp, p, v) ==
         THEN /\ out' = base @@ [sel |-> <<>>, status |-> "ValueError", why |-> "unknown"] /\ UNCHANGED cfg
         ELSE IF r[1] = "ambiguous"
         THEN /\ out' = base @@ [sel |-> <<>>, status |-> "KeyError", why |-> "ambiguous"] /\ UNCHANGED cfg
+        ELSE IF BareMethod(sp)
+        THEN /\ out' = base @@ [sel |-> <<>>, status |-> "ValueError", why |-> "method-without-class"] /\ UNCHANGED cfg
         ELSE IF BindVerdict(r[2], p) # "ok"
         THEN /\ out' = base @@ [sel |-> r[2].sel, status |-> "ValueError", why |-> BindVerdict(r[2], p)] /\ UNCHANGED cfg
         ELSE /\ HasKey(cfg, scope, r[2].sel, p) \/ Len(cfg) < MaxBindings
@@ -668,10 +675,11 @@ Query(scope, sp, p) ==
      out' = [op |-> "Query", scope |-> scope, spelling |-> sp, param |-> p,
              status |-> IF r[1] = "none" THEN "ValueError"
                         ELSE IF r[1] = "ambiguous" THEN "KeyError"
+                        ELSE IF BareMethod(sp) THEN "ValueError"
                         ELSE IF BindVerdict(r[2], p) # "ok" THEN "ValueError"
                         ELSE IF ~HasKey(cfg, scope, r[2].sel, p) THEN "ValueError"
                         ELSE "ok",
-             val |-> IF r[1] = "one" /\ HasKey(cfg, scope, r[2].sel, p)
+             val |-> IF r[1] = "one" /\ ~BareMethod(sp) /\ HasKey(cfg, scope, r[2].sel, p)
                      THEN cfg[CHOOSE i \in 1..Len(cfg) : cfg[i].scope = scope /\ cfg[i].sel = r[2].sel /\ cfg[i].param = p].val
                      ELSE <<"none">>]
   /\ UNCHANGED <<reg, cfg, stack, okeys, oper, locked, usaved, interactive, singles, consts, hooks, imports>>
@@ -1076,7 +1084,9 @@ ProperSuffixesOf(n) == { SubSeq(n, i, Len(n)) : i \in 1..Len(n) }
 \* the shortest spelling that resolves to n (what SelectorMap.minimal_selector reports; C08_Minimal)
 MinimalSpelling(n) ==
   LET ok == { s \in ProperSuffixesOf(n) : MatchSet(RegSels, s) = {n} }
-  IN CHOOSE s \in ok : \A t \in ok : Len(s) <= Len(t)
+      m  == CHOOSE s \in ok : \A t \in ok : Len(s) <= Len(t)
+  IN \* 2121-2125: a method is written with (at least) its class name
+     IF IsMethod(ConfBySel(n)) /\ Len(m) = 1 THEN SubSeq(n, Len(n) - 1, Len(n)) ELSE m
 
 \* one emitted statement per representable binding; macros are written as `name = value`
 Serialize(cf) ==
@@ -1091,6 +1101,7 @@ C06_RoundTrip ==
   \A st \in Serialize(cfg) :
     \/ st.sel = GinMacroSel
     \/ /\ ResolveConf(st.spelling) = <<"one", ConfBySel(st.sel)>>
+       /\ ~BareMethod(st.spelling)
        /\ BindVerdict(ConfBySel(st.sel), st.param) = "ok"
 
 \* values without a literal form are omitted, everything else is emitted
